@@ -184,7 +184,7 @@ func (r *c09Run) unmarshal(t types.Type, text string) (obj int, isErr bool, why 
 	r.script = splitLines(text)
 	r.nread = 0
 	rid := r.st.alloc(types.Typ[types.Int], OpaqueV{"bufio"})
-	did := r.st.alloc(decT, mkStruct(decT, map[string]Val{"paragraphReader": mkStruct(prT, map[string]Val{"reader": Ptr{Obj: rid}})}))
+	did := r.st.alloc(decT, mkStruct(decT, map[string]Val{roleField(decT, repoModule+"/control.ParagraphReader", "paragraphReader"): mkStruct(prT, map[string]Val{roleField(prT, "*bufio.Reader", "reader"): Ptr{Obj: rid}})}))
 	obj = r.st.alloc(t, zeroVal(t))
 	ret, why := r.call(fn, Ptr{Obj: did}, IfaceV{T: types.NewPointer(t), V: Ptr{Obj: obj}})
 	if why != "" {
